@@ -319,6 +319,9 @@ class Gen:
                 out.append(('obj', o[0]))
             else:
                 out.append(self.new_src(d, 's', self.rng.choice(['.c', '.c', '.cpp']), ref=True)[0])
+        if all(a[0] == 'objs' for a in out):
+            # a find may return nothing: a link needs at least one file
+            out.append(self.new_src(d, 's', '.c', ref=True)[0])
         return out
 
     def st_object(self, d):
@@ -636,8 +639,29 @@ def render_project(g):
     return files, dirs
 
 
+class Replayed:
+    """A project read back from a replay file: same interface as Gen for check_project."""
+
+    def __init__(self, r):
+        self.raw = (r['files'], r.get('dirs', []))
+        files = r['files']
+        self.scripts = {os.path.dirname(k): [] for k in files if os.path.basename(k) == 'build.bfg'}
+        self.opt_scripts = {os.path.dirname(k): files[k] for k in files if os.path.basename(k) == 'options.bfg'}
+        self.tree = dict(files)
+        self.nodist, self.withdist = set(r.get('nodist', [])), set(r.get('withdist', []))
+        self.nodist_dirs = set(r.get('nodist_dirs', []))
+        self.listed, self.refs = set(), set()
+        self.regen_find = r.get('regen_find')
+        m = re.search(r"project\('proj', version='([^']*)'\)", files.get('build.bfg', ''))
+        self.version = m.group(1) if m else None
+
+
+def render_any(g):
+    return g.raw if hasattr(g, 'raw') else render_project(g)
+
+
 def write_project(src, g):
-    files, dirs = render_project(g)
+    files, dirs = render_any(g)
     for dn in dirs:
         os.makedirs(os.path.join(src, dn), exist_ok=True)
     project.write_tree(src, files)
@@ -957,9 +981,32 @@ def check_project(rep, g, tag, regen=False):
     return fails, info
 
 
+def report_system(rep, g, what, detail, classes, regen):
+    files, dirs = render_any(g)
+    rep.fail('system: %s: %s' % (what, detail), {'stage': 'system', 'files': files, 'dirs': dirs,
+                                                 'detail': detail, 'regen': regen, 'regen_find': g.regen_find,
+                                                 'nodist': sorted(g.nodist), 'withdist': sorted(g.withdist),
+                                                 'nodist_dirs': sorted(g.nodist_dirs)},
+             classes=classes, found_input='harness' not in classes)
+
+
 def project_canon(g):
     files, _ = render_project(g)
     return json.dumps(sorted((k, v) for k, v in files.items() if k.endswith('.bfg')))
+
+
+def stage_corpus(rep):
+    d = os.path.join(common.VERIF, 'corpus', 'C18')
+    for fn in sorted(os.listdir(d)) if os.path.isdir(d) else []:
+        if fn.endswith('.json'):
+            r = json.load(open(os.path.join(d, fn)))
+            g = Replayed(r)
+            fails, info = check_project(rep, g, fn, regen=bool(r.get('regen')))
+            rep.case('corpus:' + fn, True)
+            rep.count('corpus:projects')
+            rep.traces += 1
+            for what, detail, classes in fails:
+                report_system(rep, g, 'corpus %s: %s' % (fn, what), detail, classes, bool(r.get('regen')))
 
 
 def stage_system(rep, rng, n, regen_n):
@@ -981,12 +1028,7 @@ def stage_system(rep, rng, n, regen_n):
             if k in info:
                 rep.count('system:%s=%s' % (k, info[k]))
         for what, detail, classes in fails:
-            files, dirs = render_project(g)
-            rep.fail('system: %s: %s' % (what, detail), {'stage': 'system', 'files': files, 'dirs': dirs,
-                                                         'detail': detail, 'regen': regen,
-                                                         'regen_find': g.regen_find,
-                                                         'nodist': sorted(g.nodist), 'withdist': sorted(g.withdist)},
-                     classes=classes, found_input='harness' not in classes)
+            report_system(rep, g, what, detail, classes, regen)
     rep.stage('system', projects=n, regen_projects=regen_n)
 
 
@@ -1004,7 +1046,9 @@ class ToModel:
 
     def __init__(self, g, walks, hit):
         self.g, self.walks, self.hit = g, list(walks), hit
-        self.idx = {}       # label -> log index
+        self.idx = {}       # label -> first log index
+        self.count = {}     # label -> number of file objects the statement returned
+        self.nlog = 0
         self.paths = {}     # label -> (root, path) of a file statement given by name
         self.calls = []
         self.nfind = 0
@@ -1012,6 +1056,8 @@ class ToModel:
 
     def arg(self, a, d, dep=False):
         t, v = a
+        if t == 'objs':
+            raise ValueError('splat argument outside a list')
         if t == 'name':
             return [0, m_node('src', norm('' if dep else d, v))]
         if t == 'spath':
@@ -1020,10 +1066,22 @@ class ToModel:
             return [0, m_node('build', v.rstrip('/'))]
         if t == 'apath':
             return [0, m_node('abs', v)]
+        if t == 'at':
+            return [1, v]
         return [1, self.idx[v]]
 
+    def splat(self, l):
+        """*N[k] stands for one argument per file object the find returned."""
+        out = []
+        for a in l:
+            if a[0] == 'objs':
+                out += [('at', self.idx[a[1]] + j) for j in range(self.count[a[1]])]
+            else:
+                out.append(a)
+        return out
+
     def args(self, l, d, dep=False):
-        return [self.arg(a, d, dep) for a in l]
+        return [self.arg(a, d, dep) for a in self.splat(l)]
 
     def incs(self, l, d):
         out = []
@@ -1036,8 +1094,8 @@ class ToModel:
 
     def files_flag(self, l, d):
         out = []
-        for a in l:
-            isobj = a[0] in ('obj', 'objs') and self.g.tag_of(a[1]) == 'object'
+        for a in self.splat(l):
+            isobj = a[0] == 'obj' and self.g.tag_of(a[1]) == 'object'
             out.append([self.arg(a, d), isobj])
         return out
 
@@ -1051,13 +1109,16 @@ class ToModel:
     def opt(self, a, d):
         return [] if a is None else [self.arg(a, d)]
 
-    def push(self, st):
-        self.idx[st['label']] = len(self.idx)
+    def push(self, st, n=1):
+        self.idx[st['label']] = self.nlog
+        self.count[st['label']] = n
+        self.nlog += n
 
     def run(self, d):
         for st in self.g.scripts[d]:
             op = st['op']
             c = None
+            npush = 1
             if op == 'sub':
                 sd = norm(d, st['dir'])
                 self.calls.append([12, m_node('src', norm(sd, 'build.bfg'))])
@@ -1076,7 +1137,9 @@ class ToModel:
                 sp = st['spec']
                 c = [1, st['hdr'], m_node('src', norm(d, sp['dir'])), [self.find(sp)], sp['dist']]
             elif op == 'find':
-                c = [3 if st['paths'] else 2, self.find(st['spec']), st['spec']['dist']]
+                f = self.find(st['spec'])
+                npush = sum(1 for e in f[0] if e[1])
+                c = [3 if st['paths'] else 2, f, st['spec']['dist']]
             elif op == 'extra_dist':
                 c = [4, self.args(st['files'], d),
                      [[m_node('src', norm(d, a[1])), self.find({'cache': True})] for a in st['dirs']]]
@@ -1084,7 +1147,8 @@ class ToModel:
                 c = [5, self.arg(st['file'], d), bool(st['lang']), self.incs(st['includes'], d), self.opt(st['pch'], d),
                      self.args(st['deps'], d, dep=True), 'o']
             elif op == 'objects':
-                c = [6, self.files_flag(st['files'], d), self.incs(st['includes'], d), [], ['o']]
+                c = [6, self.files_flag(st['files'], d), self.incs(st['includes'], d), [], ['o'] * len(st['files'])]
+                npush = len(st['files'])
             elif op == 'pch':
                 c = [7, self.arg(st['file'], d), self.opt(st['source'], d), self.incs(st['includes'], d), 'o']
             elif op == 'link':
@@ -1103,7 +1167,7 @@ class ToModel:
             if c is not None:
                 self.calls.append(c)
             if 'label' in st:
-                self.push(st)
+                self.push(st, npush)
 
 
 # ----------------------------------------------------------------------------- in-process execution of the real code
@@ -1319,6 +1383,7 @@ def run(rep):
                   'repro': 'configure, add d/b.c, make dist: d/a.h is missing'}, classes=('find-cache-hit-extra',))
     nd = stage_w(rep, rng, 150 if thorough else 40, fixed, ip)
     before = len(rep.violations)
+    stage_corpus(rep)
     stage_system(rep, rng, 30 if thorough else 3, 8 if thorough else 1)
     if nd and len(rep.violations) == before:
         # the tie broke but the oracle saw nothing: look for a failing input with ten times the budget
@@ -1326,4 +1391,12 @@ def run(rep):
 
 
 def replay(rep, path):
+    r = json.load(open(path))
+    if r.get('stage') == 'system' and 'files' in r:
+        g = Replayed(r)
+        fails, info = check_project(rep, g, 'replay', regen=bool(r.get('regen')))
+        rep.case(json.dumps(sorted(r['files'].items())), True)
+        for what, detail, classes in fails:
+            report_system(rep, g, what, detail, classes, bool(r.get('regen')))
+        return
     run(rep)
